@@ -31,14 +31,19 @@ EXTENDS BreadlogRun, Json, IOUtils
 Rec == ndJsonDeserialize(IOEnv.TRACE)
 
 VARIABLES l, good,
-          pend, age     \* a delivered signal that the model has not applied yet, and how many events were consumed since
-tvars == <<l, good, pend, age>>
-allvars == <<vars, l, good, pend, age>>
+          pend, age,    \* a delivered signal that the model has not applied yet, and how many events were consumed since
+          out           \* OUTPUT PROTOCOL: reference-tagged log lines the model has emitted and the trace has not shown yet;
+                        \* each element is the set of codes acceptable at that position
+tvars == <<l, good, pend, age, out>>
+allvars == <<vars, l, good, pend, age, out>>
 
 Has == l <= Len(Rec)
 Ev == Rec[l]
 (* The interposer raises a signal INSIDE the call of the next operation, i.e. after the program has polled its stop flag for
    that operation: the model applies a recorded signal either at once or right after the next event (never later). *)
+Say(q) == out' = out \o q
+Quiet == out' = out
+FailCode == IF p.mode = "check" THEN {28} ELSE {30}
 Adv == /\ (pend = "none" \/ age = 0)
        /\ l' = l + 1 /\ pend' = pend /\ age' = IF pend = "none" THEN 0 ELSE age + 1
 Keep == good' = good
@@ -54,7 +59,7 @@ G0 == [written |-> {}, runs |-> 0, faults |-> 0, devs |-> 0, sigs |-> 0, nextUid
        lockFault |-> FALSE, exhausted |-> FALSE, mustFail |-> FALSE, hist |-> <<>>]
 
 TInit ==
-  /\ l = 1 /\ good = TRUE /\ pend = "none" /\ age = 0
+  /\ l = 1 /\ good = TRUE /\ pend = "none" /\ age = 0 /\ out = <<>>
   /\ present = {} /\ bad = {} /\ tree = [f \in Files |-> <<>>] /\ upto = [f \in Files |-> 1]
   /\ lock = LAbsent /\ tmpdir = {} /\ p = Idle /\ g = G0
 
@@ -64,10 +69,10 @@ LoadState(e) ==
   /\ upto' = [f \in Files |-> Len(Pad(e.files)[f]) + 1]
   /\ lock' = e.lock /\ tmpdir' = {}
 
-EInit == Has /\ Ev.ev = "init" /\ l' = l + 1 /\ NoSig /\ good' = TRUE /\ LoadState(Ev) /\ p' = Idle /\ g' = G0
-EDev  == Has /\ Ev.ev = "dev" /\ p.pc = "idle" /\ Adv /\ Keep /\ LoadState(Ev) /\ p' = Idle
+EInit == Has /\ Ev.ev = "init" /\ l' = l + 1 /\ NoSig /\ good' = TRUE /\ LoadState(Ev) /\ p' = Idle /\ g' = G0 /\ out' = <<>>
+EDev  == Has /\ Ev.ev = "dev" /\ p.pc = "idle" /\ Adv /\ Keep /\ Quiet /\ LoadState(Ev) /\ p' = Idle
          /\ g' = [g EXCEPT !.exit = XNone, !.clean = FALSE, !.lastCheck = Null]
-EStart == Has /\ Ev.ev = "start" /\ good /\ Adv /\ Keep /\ StartRun(Ev.mode, Ev.cache, "ok")
+EStart == Has /\ Ev.ev = "start" /\ good /\ Adv /\ Keep /\ StartRun(Ev.mode, Ev.cache, "ok") /\ out' = <<{22}>>
 
 -----------------------------------------------------------------------------
 IsOp(c, o) == Has /\ Ev.ev = "op" /\ Ev.cls = c /\ Ev.op = o
@@ -76,10 +81,13 @@ IsNoise == Has /\ Ev.ev = "op" /\
              \/ (Ev.cls = "lock" /\ Ev.op \in {"stat", "open", "read"} /\ Ev.ok)
              \/ (Ev.cls = "src" /\ Ev.op = "read")
              \/ (Ev.cls = "tmp" /\ Ev.op \in {"unlink", "fsync", "write_orphan"})
-ENoise == good /\ IsNoise /\ Adv /\ Keep /\ UNCHANGED vars
+ENoise == good /\ IsNoise /\ Adv /\ Keep /\ Quiet /\ UNCHANGED vars
+(* a log line of the real run must be the next one the model has emitted *)
+ELogLine == /\ good /\ Has /\ Ev.ev = "log" /\ out # <<>> /\ Ev.code \in Head(out)
+            /\ out' = Tail(out) /\ Adv /\ Keep /\ UNCHANGED vars
 
-Silent(A) == good /\ A /\ UNCHANGED tvars
-With(A, cond) == good /\ cond /\ A /\ Adv /\ Keep
+Silent(A, q) == good /\ A /\ UNCHANGED <<l, good, pend, age>> /\ Say(q)
+With(A, cond, q) == good /\ cond /\ A /\ Adv /\ Keep /\ Say(q)
 
 (* the order of first opens recorded for the current run (a prefix when the run ended early) *)
 RECURSIVE StartOf(_)
@@ -87,7 +95,10 @@ StartOf(i) == IF Rec[i].ev = "start" THEN i ELSE StartOf(i - 1)
 ObservedOrder == Rec[StartOf(l - 1)].order
 IsPrefixOf(a, b) == Len(a) <= Len(b) /\ \A i \in 1..Len(a) : a[i] = b[i]
 
-TDiscover == Silent(Discover) /\ (p'.pc # "idle" => IsPrefixOf(ObservedOrder, p'.order))
+DiscoverSays == IF p.stop \/ present = {} THEN <<FailCode>>
+                ELSE IF p.mode = "check" THEN <<{15}>>
+                ELSE IF p.cached # NoRef THEN <<{16}, {17}, {20}>> ELSE <<{16}, {18}>>
+TDiscover == Silent(Discover, DiscoverSays) /\ (p'.pc # "idle" => IsPrefixOf(ObservedOrder, p'.order))
 
 (* does a read of the file opened by event i fail (injected) right after it? *)
 ReadFailsAfter(i) ==
@@ -97,49 +108,71 @@ ReadFailsAfter(i) ==
 
 AtFile == p.pc \in {"scan", "p1", "p2"} /\ p.i >= 1 /\ p.i <= Len(p.order) /\ ~p.stop
 OpenCur == IsOp("src", "open") /\ Ev.ok /\ Ev.id = p.order[p.i] /\ ~ReadFailsAfter(l)
-LoopHead(A) == IF AtFile THEN With(A, OpenCur) ELSE Silent(A)
+(* what the per-file step of each pass prints *)
+RECURSIVE SlotLines(_)
+SlotLines(seq) == IF seq = <<>> THEN <<>>
+                  ELSE (IF Head(seq).kind = "unusable" THEN <<{35}>> ELSE IF Missing(Head(seq)) THEN <<{5}>> ELSE <<>>) \o SlotLines(Tail(seq))
+FileSays == LET f == p.order[p.i] IN
+            IF f \in bad THEN <<{4}>>
+            ELSE IF p.pc = "scan" THEN SlotLines(tree[f]) \o <<{6}>> ELSE <<>>
+EndSays == IF p.pc = "scan" THEN (IF p.stop THEN <<{28}>> ELSE <<{7}>> \o (IF p.accMissing > 0 THEN <<{28}>> ELSE <<>>))
+           ELSE IF p.pc = "p1" THEN (IF p.stop THEN <<{30}>>
+                                     ELSE IF p.accMissing = 0 THEN <<{19}>>
+                                     ELSE IF p.accMax >= MaxId THEN <<{37}, {30}>> ELSE <<{20}>>)
+           ELSE <<>>
+LoopHead(A) == IF AtFile THEN With(A, OpenCur, FileSays) ELSE Silent(A, EndSays)
 
 (* a source file that cannot be opened or read (injected failure) is skipped like an unreadable one *)
 TSkipUnreadable ==
   /\ good /\ p.pc \in {"scan", "p1", "p2"} /\ AtFile
   /\ Has /\ Ev.ev = "op" /\ Ev.cls = "src" /\ Ev.op = "open" /\ Ev.id = p.order[p.i]
   /\ (~Ev.ok \/ ReadFailsAfter(l))
-  /\ p' = [p EXCEPT !.i = @ + 1] /\ Adv /\ Keep
+  /\ p' = [p EXCEPT !.i = @ + 1] /\ Adv /\ Keep /\ Say(<<{4}>>)
   /\ UNCHANGED <<fsvars, g>>
 
 (* failures of operations outside the per-file loop *)
 TCfgFail ==          \* the configuration cannot be read: main() gives up before anything else
   /\ good /\ p.pc = "readlock" /\ Has /\ Ev.ev = "op" /\ Ev.cls = "cfg" /\ ~Ev.ok /\ Ev.injected
-  /\ p' = [p EXCEPT !.pc = "exit2"] /\ Adv /\ Keep /\ UNCHANGED <<fsvars, g>>
+  /\ p' = [p EXCEPT !.pc = "exit2"] /\ Adv /\ Keep /\ Say(<<{23}>>) /\ UNCHANGED <<fsvars, g>>
 TReadLockFail ==     \* the lock cannot be stat'ed / opened / read (also: it does not exist): no cached ID
   /\ good /\ p.pc = "readlock" /\ Has /\ Ev.ev = "op" /\ Ev.cls = "lock" /\ Ev.op \in {"stat", "open", "read"} /\ ~Ev.ok
   /\ p' = [p EXCEPT !.pc = "handlers", !.cached = NoRef] /\ Adv /\ Keep /\ UNCHANGED <<fsvars, g>>
+  /\ Say(IF Ev.op \in {"open", "read"} THEN <<{32}>> ELSE <<>>)
 TDiscoverFail ==     \* the source directory cannot be examined: "Code discovery error" / "No files found"
   /\ good /\ p.pc = "discover" /\ Has /\ Ev.ev = "op" /\ Ev.cls = "other" /\ ~Ev.ok /\ Ev.injected
-  /\ FinishInterrupted(XNonZero) /\ Adv /\ Keep /\ UNCHANGED fsvars
+  /\ FinishInterrupted(XNonZero) /\ Adv /\ Keep /\ Say(IF Ev.raw = "stat" THEN <<{1, 2}, FailCode>> ELSE <<FailCode>>) /\ UNCHANGED fsvars
 
 NoNewFault == g'.faults = g.faults
 NewFault == g'.faults = g.faults + 1
-TCreateOk   == With(CreateTmp /\ NoNewFault, IsOp("tmp", "create") /\ Ev.ok)
-TCreateFail == With(CreateTmp /\ NewFault, IsOp("tmp", "create") /\ ~Ev.ok)
-TWriteSlot  == Silent(WriteSlot)
-TDrainOk    == With(Drain /\ NoNewFault, IsOp("tmp", "write") /\ Ev.ok)
-TDrainFail  == With(Drain /\ NewFault, IsOp("tmp", "write") /\ ~Ev.ok)
+WriteErr == {11, 12, 13, 36}
+TCreateOk   == With(CreateTmp /\ NoNewFault, IsOp("tmp", "create") /\ Ev.ok, <<>>)
+TCreateFail == With(CreateTmp /\ NewFault, IsOp("tmp", "create") /\ ~Ev.ok, <<{9}>>)
+WriteSlotSays == IF p.pc # "write" \/ p.cur = Null THEN <<>>
+                 ELSE IF p.cur.err THEN <<WriteErr>>
+                 ELSE IF p.cur.pos < Len(p.cur.data) /\ Missing(p.cur.data[p.cur.pos + 1]) /\ p.counter >= MaxId THEN <<{38}>>
+                 ELSE <<>>
+TWriteSlot  == Silent(WriteSlot, WriteSlotSays)
+TDrainOk    == With(Drain /\ NoNewFault, IsOp("tmp", "write") /\ Ev.ok, <<>>)
+TDrainFail  == With(Drain /\ NewFault, IsOp("tmp", "write") /\ ~Ev.ok, <<>>)
 TFlushOk    == IF p.pc = "flush" /\ p.cur # Null /\ ~p.cur.err /\ p.cur.dur = p.cur.pos
-                 THEN Silent(FlushTmp /\ p'.pc = "rename")
-                 ELSE With(FlushTmp /\ p'.pc = "rename", IsOp("tmp", "write") /\ Ev.ok)
-TFlushFail  == \/ With(FlushTmp /\ p'.pc = "p2", IsOp("tmp", "write") /\ ~Ev.ok)
-               \/ (p.pc = "flush" /\ p.cur # Null /\ p.cur.err /\ Silent(FlushTmp /\ p'.pc = "p2"))
-TRenameOk   == With(RenameTmp /\ NoNewFault, IsOp("tmp", "rename") /\ Ev.ok)
-TRenameFail == With(RenameTmp /\ NewFault, IsOp("tmp", "rename") /\ ~Ev.ok)
-TDrop       == Silent(DropTmp)
-TLockTruncOk   == With(LockTrunc /\ NoNewFault, IsOp("lock", "create") /\ Ev.ok)
-TLockTruncFail == With(LockTrunc /\ NewFault, IsOp("lock", "create") /\ ~Ev.ok)
-TLockWriteOk   == With(LockWrite /\ NoNewFault, IsOp("lock", "write") /\ Ev.ok)
-TLockWriteFail == With(LockWrite /\ NewFault, IsOp("lock", "write") /\ ~Ev.ok)
+                 THEN Silent(FlushTmp /\ p'.pc = "rename", <<>>)
+                 ELSE With(FlushTmp /\ p'.pc = "rename", IsOp("tmp", "write") /\ Ev.ok, <<>>)
+TFlushFail  == \/ With(FlushTmp /\ p'.pc = "p2", IsOp("tmp", "write") /\ ~Ev.ok, <<WriteErr>>)
+               \/ (p.pc = "flush" /\ p.cur # Null /\ p.cur.err /\ Silent(FlushTmp /\ p'.pc = "p2", <<WriteErr>>))
+TRenameOk   == With(RenameTmp /\ NoNewFault, IsOp("tmp", "rename") /\ Ev.ok, <<>>)
+TRenameFail == With(RenameTmp /\ NewFault, IsOp("tmp", "rename") /\ ~Ev.ok, <<{14}>>)
+TDrop       == Silent(DropTmp, <<>>)
+TLockTruncOk   == With(LockTrunc /\ NoNewFault, IsOp("lock", "create") /\ Ev.ok, <<>>)
+TLockTruncFail == With(LockTrunc /\ NewFault, IsOp("lock", "create") /\ ~Ev.ok, <<{33}>>)
+TLockWriteOk   == With(LockWrite /\ NoNewFault, IsOp("lock", "write") /\ Ev.ok, <<>>)
+TLockWriteFail == With(LockWrite /\ NewFault, IsOp("lock", "write") /\ ~Ev.ok, <<{33}>>)
+ExitSays == IF p.pc = "exitfinal" THEN <<{21}>> \o (IF p.failure THEN <<{30}>> ELSE <<>>)
+            ELSE IF p.pc = "exit2" /\ p.handlers THEN <<FailCode>> ELSE <<>>
+ReadLockSays == IF p.cache /\ lock = LCorrupt THEN <<{31}>> ELSE <<>>
+HandlersSay == <<{25}, IF p.mode = "check" THEN {27} ELSE {29}>>
 TSigArrive == /\ good /\ Has /\ Ev.ev = "sig" /\ pend = "none"
-              /\ l' = l + 1 /\ pend' = (IF Ev.sig = 2 THEN "INT" ELSE "TERM") /\ age' = 0 /\ Keep /\ UNCHANGED vars
-TSigApply == good /\ pend # "none" /\ Signal(pend) /\ l' = l /\ NoSig /\ Keep
+              /\ l' = l + 1 /\ pend' = (IF Ev.sig = 2 THEN "INT" ELSE "TERM") /\ age' = 0 /\ Keep /\ Quiet /\ UNCHANGED vars
+TSigApply == good /\ pend # "none" /\ Signal(pend) /\ l' = l /\ NoSig /\ Keep /\ Quiet
 TKill   == good /\ Has /\ Ev.ev = "end" /\ Ev.exit = XKilled /\ Kill /\ UNCHANGED tvars
 
 ExitClass(x) == IF x = 0 THEN 0 ELSE IF x = 2 THEN XNonZero ELSE x
@@ -147,26 +180,28 @@ StateMatches == p.pc = "idle" /\ g.exit = ExitClass(Ev.exit) /\ tree = Pad(Ev.fi
 
 EEndGood ==
   /\ good /\ Has /\ Ev.ev = "end" /\ StateMatches /\ pend = "none"
+  /\ (out = <<>> \/ Ev.exit \in {XKilled, XSignaled})  \* every line the model emitted was printed by the real run
+                                                  \* (a process that was killed may die with lines unprinted)
   /\ PrintT("ACCEPT|" \o ToString(l))
-  /\ Adv /\ Keep /\ UNCHANGED vars
+  /\ Adv /\ Keep /\ Quiet /\ UNCHANGED vars
 
 (* giving up on the current run: skip its remaining events and re-synchronise at `end` *)
-EGiveUp == good /\ Has /\ Ev.ev \in {"op", "sig", "end"} /\ good' = FALSE /\ NoSig /\ UNCHANGED <<vars, l>>
+EGiveUp == good /\ Has /\ Ev.ev \in {"op", "sig", "end", "log"} /\ good' = FALSE /\ NoSig /\ out' = <<>> /\ UNCHANGED <<vars, l>>
            /\ PrintT("REACHED|" \o ToString(l) \o "|" \o p.pc)
-ESkip   == ~good /\ Has /\ Ev.ev \in {"op", "sig", "start"} /\ l' = l + 1 /\ NoSig /\ Keep /\ UNCHANGED vars
-EResync == /\ ~good /\ Has /\ Ev.ev = "end" /\ l' = l + 1 /\ NoSig /\ good' = TRUE
+ESkip   == ~good /\ Has /\ Ev.ev \in {"op", "sig", "start", "log"} /\ l' = l + 1 /\ NoSig /\ Keep /\ Quiet /\ UNCHANGED vars
+EResync == /\ ~good /\ Has /\ Ev.ev = "end" /\ l' = l + 1 /\ NoSig /\ good' = TRUE /\ out' = <<>>
            /\ LoadState([present |-> Ev.present, bad |-> Ev.bad, files |-> Ev.files, lock |-> Ev.lock])
            /\ p' = Idle /\ g' = [g EXCEPT !.exit = XNone, !.lastCheck = Null, !.clean = FALSE]
 
 TNext ==
-  \/ EInit \/ EDev \/ EStart \/ ENoise
-  \/ Silent(ReadLock) \/ Silent(InstallHandlers) \/ TDiscover
+  \/ EInit \/ EDev \/ EStart \/ ENoise \/ ELogLine
+  \/ Silent(ReadLock, ReadLockSays) \/ Silent(InstallHandlers, HandlersSay) \/ TDiscover
   \/ LoopHead(ScanFile) \/ LoopHead(Pass1File) \/ LoopHead(Pass2Next) \/ TSkipUnreadable
   \/ TCfgFail \/ TReadLockFail \/ TDiscoverFail
   \/ TCreateOk \/ TCreateFail \/ TWriteSlot \/ TDrainOk \/ TDrainFail \/ TFlushOk \/ TFlushFail
   \/ TRenameOk \/ TRenameFail \/ TDrop
   \/ TLockTruncOk \/ TLockTruncFail \/ TLockWriteOk \/ TLockWriteFail
-  \/ Silent(Exit) \/ TSigArrive \/ TSigApply \/ TKill
+  \/ Silent(Exit, ExitSays) \/ TSigArrive \/ TSigApply \/ TKill
   \/ EEndGood \/ EGiveUp \/ ESkip \/ EResync
 
 TSpec == TInit /\ [][TNext]_allvars
